@@ -92,6 +92,40 @@ def array_synonyms(ctx, r):
                 if got != [7.0, 8.0, 9.0]:
                     dis.append(f"numpy momentum array {sig}: assigning [{syn!r}] then reading [{g!r}] gives {got}")
                     fails.append({"key": f"numpy-setitem:{syn}", "what": dis[-1][:300], "code": None})
+    # CONSTRUCTING through a synonym: vector.obj / vector.array / vector.zip / vector.Array given a momentum spelling of one coordinate
+    # hold, value for value, what the same call with the geometric name holds (plus the momentum flavor)
+    READ = ["x", "y", "rho", "phi", "z", "theta", "eta", "t", "tau", "mag", "t2", "tau2"]
+    for sig in C.ALLSIGS:
+        names = list(C.signames(sig))
+        row = C.cart_to_stored(sig, C.strata_points(len(sig) + 1, r, n_random=1)[0])
+        for j, g in enumerate(names):
+            for syn in SYN.get(g, []):
+                spelled = [syn if i == j else nm for i, nm in enumerate(names)]
+                ctors = {"vector.obj": lambda nms: vector.obj(**dict(zip(nms, row))),
+                         "vector.array": lambda nms: vector.array({nm: numpy.array([v, v]) for nm, v in zip(nms, row)}),
+                         "vector.zip": lambda nms: vector.zip({nm: numpy.array([v, v]) for nm, v in zip(nms, row)}),
+                         "vector.Array": lambda nms: vector.Array([dict(zip(nms, row)), dict(zip(nms, row))])}
+                for cname, mk in ctors.items():
+                    n += 1
+                    try:
+                        a_, b_ = mk(spelled), mk(names)
+                        bad_ = []
+                        for rd in READ:
+                            if not hasattr(b_, rd):
+                                continue
+                            va, vb = getattr(a_, rd), getattr(b_, rd)
+                            va = va if cname == "vector.obj" else (ak.to_list(va) if cname in ("vector.zip", "vector.Array") else numpy.asarray(va).tolist())
+                            vb = vb if cname == "vector.obj" else (ak.to_list(vb) if cname in ("vector.zip", "vector.Array") else numpy.asarray(vb).tolist())
+                            if repr(va) != repr(vb):
+                                bad_.append((rd, va, vb))
+                        if not isinstance(a_, vector.Momentum):
+                            bad_.append(("flavor", type(a_).__name__, "a momentum class"))
+                        why = str(bad_[:2])
+                    except Exception as e:  # noqa: BLE001
+                        bad_, why = [1], f"{type(e).__name__}: {str(e)[:80]}"
+                    if bad_:
+                        dis.append(f"{cname} with {spelled} differs from {cname} with {names}: {why}"[:300])
+                        fails.append({"key": f"ctor-synonym:{cname}:{syn}", "what": dis[-1], "code": None})
     return dis[:10], {"array_synonym_checks": n}, fails[:3]
 
 
